@@ -136,7 +136,7 @@ P("C06", "proof", "Lean 4 refinement theorems (Unix queries = StdSpec) + model/c
   modules=["TypedPathVerif.Props.C06b", "TypedPathVerif.Props.C09", "TypedPathVerif.Props.C12"],
   rule=NONTRIV + "non-trivial = >= 2 components (unary) / true prefix relation (pairs)", design_ref="§5 C06")
 
-P("C07", "proof", "Lean 4 invariant-by-induction over operation histories (model vs StdBuf, incl. set_extension) + model/code and StdBuf/std correspondence",
+P("C07", "proof", "Lean 4 invariant-by-induction over operation histories (model vs StdBuf, incl. set_extension) + model/code and StdBuf/std correspondence; owned / UTF-8 / typed Unix buffers vs std by oracle",
   "Proved in Lean for every starting buffer and every finite history of push / pop / set_file_name / clear / "
   "set_extension: the std buffer is the typed-path buffer or that buffer plus one separator (unix_history_refines with "
   "invariant I), hence the two are component-equal throughout (I_comps_eq), every Boolean result agrees, and right "
@@ -281,7 +281,7 @@ P("C13", "proof", "Lean 4 byte-level theorem (cut at the end of the stem) + mode
   modules=["TypedPathVerif.Props.C13c", "TypedPathVerif.Props.C12b", "TypedPathVerif.Props.C14", "TypedPathVerif.Props.C13b", "TypedPathVerif.Props.C07"],
   rule=NONTRIV + "(path, extension) pairs; non-trivial = file name followed by separators or `.`", design_ref="§5 C13")
 
-P("C14", "proof", "Lean 4 theorems (UTF-8 validity is preserved by every byte-level operation and mutation history) + UTF-8 family vs byte family transcripts (delegation) + model/code correspondence; thorough tier: measured function coverage of the UTF-8 source files by the harness",
+P("C14", "proof", "Lean 4 theorems (UTF-8 validity is preserved by every byte-level operation and mutation history; the UTF-8 family's own dot split and validity over characters = the byte family's) + character-level model vs Utf8Path (u8dot / u8valid) + UTF-8 family vs byte family transcripts (delegation) + model/code correspondence; thorough tier: measured function coverage of the UTF-8 source files by the harness",
   "Spec/Utf8.lean defines well-formed UTF-8 (RFC 3629; validB_iff ties the executable check to the inductive "
   "definition, and the check is compared with core::str::from_utf8 on every run). Proved in Lean, both encodings, for "
   "every valid input: the Windows prefix is cut on a character boundary (prefix_split_valid, through all six prefix "
@@ -399,7 +399,7 @@ P("C18", "proof", "Lean 4 theorems: byte-level fault-capable transcriptions (che
               "site table; stack, allocation and time are explored under catch_unwind with a time limit on long inputs of every shape.",
   design_ref="§5 C18", extra_tb=["gen/partial.py (partial-operation site table)"])
 
-P("C19", "translation_validation", "conversion chains vs std (implementation vs oracle) + a Lean obligation tying the chains to the regenerated list of conversion impls; thorough tier: measured function coverage of the remaining source files by the harness",
+P("C19", "translation_validation", "conversion chains vs std (implementation vs oracle), borrowed vs owned / boxed / counted / Cow comparisons + Lean model and theorems for to_str and the lossy / Display text (Spec/Lossy, Props/C19b) + a Lean obligation tying the chains to the regenerated list of conversion impls; thorough tier: measured function coverage of the remaining source files by the harness",
   "Every conversion the crate offers is driven on valid and invalid UTF-8 byte strings and compared with the input bytes, "
   "std's from_utf8 / from_utf8_lossy. gen/api.py regenerates, on every run, the list of every conversion / formatting "
   "trait impl the source declares (AsRef, From, TryFrom, TryAsRef, Borrow, FromStr, Extend, FromIterator, IntoIterator, "
